@@ -22,10 +22,10 @@ CONSTANTS MaxDepth,      \* chain length bound
 
 VARIABLE c
 
-\* C18: source names of a type_mappings table (plain, generic, and one that is ALSO a project
+\* C18: source names of a type_mappings table (plain, generic with one and with two arguments, and one that is ALSO a project
 \* struct) with their configured TypeScript targets.
 Mapped(n, b, to) == [k |-> "mapped", n |-> n, base |-> b, to |-> to]
-MappedLeaves == {Mapped("PathBuf", "PathBuf", "string"), Mapped("Uuid", "Uuid", "string"),
+MappedLeaves == {Mapped("PathBuf", "PathBuf", "string"), Mapped("Versioned<Uuid, Utc>", "Versioned", "string"),
                  Mapped("DateTime<Utc>", "DateTime", "string"), Mapped("UserId", "UserId", "number"),
                  Mapped("Flag", "Flag", "boolean")}
 LeafTypes == IF LeafMode = "mapped" THEN MappedLeaves \cup {Named}
